@@ -8,7 +8,9 @@ EVIDENCE = dict(
     rule="one Register event per class found in rv.modules.MODULE_CLASSES at import time, carrying the metadata "
          "projected from cls.controllers / cls.options / class attributes; Trace_RVRegistry compares it clause by "
          "clause with specdata.json (extracted from the YAML by an independent PyYAML walk) and requires that "
-         "exactly the specified types are registered. Each compared field is one evaluation; a case is "
+         "exactly the specified types are registered; a second trace is taken after the classes were used (every unit, lenient "
+         "out-of-range values, fixtures, type names in other spellings, MetaModules mirroring controllers, 300 embedded positions, "
+         "128 stored mappings). Each compared field is one evaluation; a case is "
          "non-trivial when the field is not a default/empty value.",
     explanation="a static, exhaustive comparison (43 types x all controller and option fields) carried out by TLC "
                 "over the spec's data; programs = generated classes judged against their YAML source")
